@@ -21,7 +21,8 @@ def ops_numpy(rng, d):
         n = rng.choice([0, 1, 2, 2, 3, 4])
         rows = [al.datum(rng) for _ in range(n)]
         wf = rng.choice(["one", "one", "scalar", "array"])
-        ev = {"op": "FillNumpy", "s": s, "rows": rows, "wf": wf}
+        # the batch as a record array, a dict of columns or a pandas DataFrame
+        ev = {"op": "FillNumpy", "s": s, "rows": rows, "wf": wf, "bf": rng.choice(["rec", "rec", "dict"])}
         if wf == "scalar":
             ev["wsc"] = rng.choice(DR.POSWEIGHTS)
         elif wf == "array":
